@@ -345,3 +345,57 @@ def m_cases(tier):
         for idx in range(n):
             cs.append(calc_speeds_case(n, idx))
     return cs
+
+
+# ---------------------------------------------------------------- bounded run: braking curve + controller together
+def bounded_run_case(K=3, kmax=1, coast=True):
+    """SpeedLimitTrainSim::recalc_braking_points followed by K control steps (solve_required_pwr) of a train that approaches the end of
+    its path at a symbolic position and speed: the overspeed assert of calc_speeds is the oracle (it aborts the process when the train
+    is above the limit in force), plus non-negative speed and 'never beyond the end of the path'."""
+    import traincommon as tc
+    con = tc.dummy_consist_tmpl()
+    st = tc.train_state_tmpl(1)
+    st["dt"] = DT
+    st["mass_static"] = MASS
+    st["mass_rot"] = 0
+    for f in ("res_rolling", "res_davis_b", "res_aero", "res_grade", "res_curve"):
+        st[f] = 0
+    L = Sym("L")
+    flat = [{"offset": 0, "res_coeff": 0, "res_net": 0}, {"offset": L, "res_coeff": 0, "res_net": 0}]
+    tpc = {"link_points": [{"offset": 0, "grade_count": 0, "curve_count": 0, "cat_power_count": 0, "link_idx": 1}, {"offset": L, "grade_count": 0, "curve_count": 0, "cat_power_count": 0, "link_idx": 0}],
+           "grades": flat, "curves": flat, "speed_points": [{"offset": 0, "speed_limit": Sym("sl0")}], "cat_power_limits": [],
+           "train_params": {"length": Sym("ts_length"), "speed_max": 30, "towed_mass_static": 1000, "mass_per_brake": 100, "axle_count": 4, "train_type": "Freight",
+                            "curve_coeff_0": 0, "curve_coeff_1": 0, "curve_coeff_2": 0},
+           "is_finished": False}
+    res = Variant("Strap", {"bearing": {"force": 0}, "rolling": {"ratio": 0}, "davis_b": {"davis_b": 0}, "aerodynamic": {"cd_area": 0},
+                            "grade": {"idx_front": 0, "idx_back": 0}, "curve": {"idx_front": 0, "idx_back": 0}})
+    recv = {"train_id": "", "origs": [], "dests": [], "loco_con": con, "state": st, "train_res": res, "path_tpc": tpc,
+            "braking_points": {"points": [], "idx_curr": 0}, "fric_brake": tc.fric_brake_tmpl(), "save_interval": None, "simulation_days": None, "scenario_year": None}
+    if coast:
+        # a coasting train (no traction available): the controller can only brake, which is all this check is about, and the step stays linear
+        recv["loco_con"]["state"]["pwr_out_max"] = 0
+        recv["loco_con"]["state"]["pwr_rate_out_max"] = 0
+        recv["loco_con"]["state"]["pwr_dyn_brake_max"] = 0
+        recv["state"]["pwr_whl_out"] = 0
+
+    def assume(S):
+        a = S["fb_force_max"] / MASS * DT
+        return [("brake force > 0", S["fb_force_max"] > 0), ("train length > 0", S["ts_length"] > 0), ("path longer than the train", S["L"] > S["ts_length"]),
+                (f"0 < posted limit <= {kmax} velocity steps (bounds the curve length)", z3.And(S["sl0"] > 0, S["sl0"] <= kmax * a)),
+                ("the train cruises at the posted limit", S["ts_speed"] == S["sl0"]),
+                ("the train starts between three and two steps of travel before the end of the path (every phase of the time-step grid relative to the braking curve)",
+                 z3.And(S["ts_offset"] >= S["ts_length"], S["L"] - S["ts_offset"] >= 2 * DT * S["sl0"], S["L"] - S["ts_offset"] < 3 * DT * S["sl0"])),
+                ("friction brake released", z3.And(S["fb_s_force"] == 0, S["fb_ramp_up_coeff"] >= 0)), ("dummy unit: force_max > 0", S["dl_force_max"] > 0)]
+
+    claims = [
+        Claim("speed never negative", lambda c: XLE(0, c.post["state.speed"]), when="ok", role="run_speed_nonneg"),
+        Claim("speed never above the posted limit", lambda c: LE(c.post["state.speed"], c.S["sl0"]), when="ok", role="run_speed_le_posted"),
+        Claim("speed never above the limit in force", lambda c: LE(c.post["state.speed"], c.post["state.speed_limit"]), when="ok", role="run_speed_le_limit_in_force"),
+        Claim("front never beyond the end of the path", lambda c: LE(c.post["state.offset"], c.S["L"]), when="ok", role="run_within_path"),
+        Claim("the overspeed assert never fires (no panic)", None, when="nopanic", role="run_no_panic"),
+    ]
+    calls = [Call("SpeedLimitTrainSim::recalc_braking_points", [])] + [Call("SpeedLimitTrainSim::solve_required_pwr", []) for _ in range(K)]
+    return Case(f"bounded_run_K{K}_k{kmax}", "C03", "SpeedLimitTrainSim", recv, calls, assume, claims,
+                bounds={"steps": K, "posted sections": 1, "curve length": f"posted limit <= {kmax} velocity steps", "dt": f"{DT} s (concrete)", "train mass": f"{MASS} kg (concrete)", "track": "level, no resistance",
+                        "traction": "none (coasting train): only the braking side of the controller is exercised", "start": "cruising at the posted limit, symbolic position two to three steps of travel before the end of the path (all phases)"},
+                expect_ok=True, max_paths=60000, loop_bound=14, timeout_ms=90000, check_side=False)
